@@ -1685,7 +1685,14 @@ class Workflow(Trellis):
             # hence unavailable, until its creator returns or it is deleted.
             state = file.get_state()
             if state == FileState.VOLATILE:
-                raise GraphError(_volatile_input_message(path))
+                if not detached:
+                    raise GraphError(_volatile_input_message(path))
+                # The state of a detached node is a memory, not a claim.
+                # Should its creator come back, it must run again,
+                # so that declaring the volatile output reports the conflict then.
+                old_creator = file.creator()
+                if isinstance(old_creator, Step):
+                    old_creator.after_lost_product()
             self._raise_if_forbidden_target(path, state)
         new_relation = (
             self.db.execute(
